@@ -15,6 +15,7 @@ import (
 type foreignCol struct {
 	Codec   string  `json:"codec"`
 	Literal bool    `json:"literal"`
+	Variant int     `json:"variant"`
 	Pages   [][]int `json:"pages"` // per row group: records per page
 	Seg     string  `json:"seg"`   // greedy | rle1 | bp | bp8 | rand
 	Pad     int     `json:"pad"`
@@ -23,14 +24,14 @@ type foreignCol struct {
 }
 
 type foreignSpec struct {
-	Rows    []interface{} `json:"rows"`
-	RGSplit []int         `json:"rgsplit"`
-	Cols    []foreignCol  `json:"cols"`
-	Extras  bool          `json:"extras"`
-	FileOff string        `json:"fileoff"`
-	NoStripe bool         `json:"nostripe"` // huge files: skip the (quadratic) TLC re-check of the harness's own striping
-	Seed    uint64        `json:"seed"`
-	Unsup   *struct {
+	Rows     []interface{} `json:"rows"`
+	RGSplit  []int         `json:"rgsplit"`
+	Cols     []foreignCol  `json:"cols"`
+	Extras   bool          `json:"extras"`
+	FileOff  string        `json:"fileoff"`
+	NoStripe bool          `json:"nostripe"` // huge files: skip the (quadratic) TLC re-check of the harness's own striping
+	Seed     uint64        `json:"seed"`
+	Unsup    *struct {
 		RG      int    `json:"rg"`
 		Col     int    `json:"col"`
 		Page    int    `json:"page"`
@@ -183,7 +184,7 @@ func runForeign(c jobCase) {
 		rg := pq.RGSpec{NumRows: int64(nrows)}
 		for ci, col := range cols {
 			fc := fs.Cols[ci]
-			ch := pq.ChunkSpec{Col: col.Column, Codec: codecNum[fc.Codec], Literal: fc.Literal}
+			ch := pq.ChunkSpec{Col: col.Column, Codec: codecNum[fc.Codec], Literal: fc.Literal, Variant: fc.Variant}
 			counts := []int{nrows}
 			if gi < len(fc.Pages) && len(fc.Pages[gi]) > 0 {
 				counts = fc.Pages[gi]
